@@ -7,19 +7,27 @@ per = collections.defaultdict(dict); nsched = collections.Counter(); bad = colle
 for l in open(src, errors='replace'):
     if not l.startswith('"{'): continue
     j = json.loads(json.loads(l))
+    def key(cr, ns):
+        return ("s%d" % ns) if cr[1] == 0 else "t%dc%d" % (cr[0], cr[1])
     names = {}; ns = 0
     for i, cr in enumerate(j['pcre'], start=1):
-        if cr[1] == 0:
-            ns += 1; names[i] = "s%d" % ns
-        else:
-            names[i] = "t%dc%d" % (cr[0], cr[1])
+        if cr[1] == 0: ns += 1
+        names[i] = key(cr, ns)
+    hs = 0; hnames = {}
+    for i, cr in enumerate(j.get('hcre', []), start=1):
+        if cr[1] == 0: hs += 1
+        hnames[i] = key(cr, hs)
+    for i, cr in enumerate(j.get('tcre', []), start=1):
+        names[100 + i] = key(cr, 0)
     probes = collections.defaultdict(list)
     gone = set(); late = False
     for e in j['log']:
         if e['p'] == 0:
-            gone.add("s%d" % e['v'][1]); continue      # unsubscribe(handle) returned
-        if names[e['p']] in gone: late = True
-        probes[names[e['p']]].append([e['t'], e['v']])
+            if e['t'] == 'U': gone.add(hnames.get(e['v'][1], "?"))      # unsubscribe(handle) returned
+            continue
+        nm = names.get(e['p'], "p%d" % e['p'])
+        if nm in gone: late = True
+        probes[nm].append([e['t'], e['v']])
     o = dict(probes=probes, rets=j['rets'], stuck=j['stuck'], overlap=j['overlap'], fault=j['fault'], cnt=j['cnt'], late=late)
     k = json.dumps(o, sort_keys=True)
     per[j['c']][k] = o
